@@ -1,4 +1,5 @@
 """C10: decided on operation histories (see DESIGN.md section 7 for what is compared and proved)."""
+from . import _multi
 from ._store import replay_store, run_store
 
 QUICK = [('compress', 100), ('compress_big', 12)]
@@ -6,8 +7,12 @@ THOROUGH = [('compress', 1200), ('compress_big', 150)]
 
 
 def run(tier: str):
-    return run_store('C10', tier, QUICK, THOROUGH)
+    rep = run_store('C10', tier, QUICK, THOROUGH)
+    # recorded sizes as reported through a long-open handle's slow read path
+    rep.failures += _multi.stale_handle_failures('C10', 40 if tier == 'quick' else 500, ('meta-size', 'bulkmeta-size'), rep)
+    return rep
 
 
 def replay(path: str) -> int:
-    return replay_store('C10', path)
+    r_ = _multi.replay_multi('C10', path)
+    return r_ if r_ is not None else replay_store('C10', path)
